@@ -105,7 +105,7 @@ pub(crate) fn inv_dp(p: &Peripheral, fdl: &FdlActiveStation) -> bool {
 }
 
 #[derive(Clone, Copy, PartialEq, Eq)]
-enum ReqKind {
+pub(crate) enum ReqKind {
     None,
     Diag,
     SetPrm,
@@ -737,4 +737,549 @@ pub(crate) fn ref_will_send(p: &Peripheral, fdl: &FdlActiveStation) -> bool {
 /// Reference prediction: will this peripheral be declared offline when given its turn?
 pub(crate) fn ref_goes_offline(p: &Peripheral, fdl: &FdlActiveStation) -> bool {
     p.retry_count > fdl.parameters().max_retry_limit
+}
+
+// ==========================================================================================
+// abstract peripheral for the DP master harnesses: `Peripheral::transmit_telegram` replaced by
+// the reference behaviour that c03_transmit_step_* prove the real function to have (request
+// kind, retry counting, Offline event); the frame contents are not the master's business.
+// ==========================================================================================
+
+pub(crate) fn abs_transmit_telegram<'a, 'b>(
+    p: &mut Peripheral<'a>,
+    _now: crate::time::Instant,
+    _dp: &crate::dp::DpMasterState,
+    fdl: &FdlActiveStation,
+    tx: TelegramTx<'b>,
+    _high_prio_only: HighPrioOnly,
+) -> Result<crate::fdl::TelegramTxResponse, (TelegramTx<'b>, Option<PeripheralEvent>)>
+where
+    'a: 'a,
+{
+    if p.retry_count > fdl.parameters().max_retry_limit {
+        p.state = PeripheralState::Offline;
+        p.fcb.reset();
+        p.retry_count = 0;
+        return Err((tx, Some(PeripheralEvent::Offline)));
+    }
+    if ref_will_send(p, fdl) {
+        if in_dx(p.state) && p.retry_count == 0 {
+            p.diag_requested = p.diag_needed;
+        }
+        p.retry_count += 1;
+        Ok(crate::fdl::TelegramTxResponse::new(6, Some(p.address)))
+    } else {
+        p.retry_count = 0;
+        Err((tx, None))
+    }
+}
+
+/// Abstract `receive_reply`: the addressed peripheral ends up in an arbitrary state satisfying
+/// the invariant, with an arbitrary event (what the real function does is c03_receive_step_*'s
+/// subject); used to check that the master routes the reply to exactly one slot.
+pub(crate) fn abs_receive_reply<'a>(
+    p: &mut Peripheral<'a>,
+    _now: crate::time::Instant,
+    _dp: &crate::dp::DpMasterState,
+    fdl: &FdlActiveStation,
+    _telegram: Telegram,
+) -> Option<PeripheralEvent>
+where
+    'a: 'a,
+{
+    p.state = any_pstate();
+    p.retry_count = kani::any();
+    p.fcb = any_live_fcb();
+    p.diag_needed = kani::any();
+    kani::assume(inv_dp(p, fdl));
+    match kani::any::<u8>() {
+        0 => None,
+        1 => Some(PeripheralEvent::Online),
+        2 => Some(PeripheralEvent::Configured),
+        3 => Some(PeripheralEvent::ConfigError),
+        4 => Some(PeripheralEvent::ParameterError),
+        5 => Some(PeripheralEvent::DataExchanged),
+        _ => Some(PeripheralEvent::Diagnostics),
+    }
+}
+
+// ==========================================================================================
+// C07: reference master (RefMaster) refined by the real Peripheral, and the joint system
+// RefMaster x RefSlave
+// ==========================================================================================
+//
+// Composition: (1) `c07_refines_*` prove, one step from EVERY state, that the real Peripheral's
+// control state evolves exactly like RefMaster (a complete, deterministic reference of the DP-V0
+// master-side slave handler); (2) `c07_joint_*` explore RefMaster x RefSlave (reference DP slave
+// with frame-count-bit retry detection) from EVERY joint state.  Together: from every state the
+// real master can be in, a conforming slave is back in data exchange within the stated number of
+// fault-free turns.
+
+#[derive(Clone, Copy, PartialEq, Eq)]
+pub(crate) struct RefMaster {
+    pub state: PeripheralState,
+    pub rc: u8,
+    pub fcb: FrameCountBit,
+    pub diag_needed: bool,
+    pub diag_requested: bool,
+    pub limit: u8,
+    /// inputs configured (length > 0)?
+    pub has_inputs: bool,
+}
+
+#[derive(Clone, Copy, PartialEq, Eq)]
+pub(crate) enum Reply {
+    /// short confirmation
+    Sc,
+    /// well-formed diagnostics response (DSAP 62, SSAP 60, >= 6 bytes) with these flags
+    Diag { prm_fault: bool, cfg_fault: bool, prm_req: bool, not_ready: bool },
+    /// data telegram that is not a well-formed diagnostics response: response status class and
+    /// whether its length equals the configured input length
+    Data { status: ResponseStatus, len_ok: bool },
+}
+
+impl RefMaster {
+    pub fn of(p: &Peripheral, fdl: &FdlActiveStation) -> Self {
+        RefMaster {
+            state: p.state,
+            rc: p.retry_count,
+            fcb: p.fcb,
+            diag_needed: p.diag_needed,
+            diag_requested: p.diag_requested,
+            limit: fdl.parameters().max_retry_limit,
+            has_inputs: p.pi_i.len() > 0,
+        }
+    }
+
+    /// One transmit turn: (request kind sent, Offline event raised).  User parameters and
+    /// configuration are present (a peripheral without them never leaves the bring-up).
+    pub fn transmit(&mut self) -> (ReqKind, bool) {
+        if self.rc > self.limit {
+            self.state = PeripheralState::Offline;
+            self.fcb = FrameCountBit::First;
+            self.rc = 0;
+            return (ReqKind::None, true);
+        }
+        if in_dx(self.state) && self.rc == 0 {
+            self.diag_requested = self.diag_needed;
+        }
+        let k = ref_next_request(self.state, self.rc, self.limit, self.diag_requested, true, true);
+        if k == ReqKind::None {
+            self.rc = 0;
+        } else {
+            self.rc += 1;
+        }
+        (k, false)
+    }
+
+    /// One reply; returns the event.
+    pub fn receive(&mut self, r: Reply) -> Option<PeripheralEvent> {
+        let diag = matches!(r, Reply::Diag { .. });
+        match self.state {
+            PeripheralState::Offline => {
+                if diag {
+                    self.fcb = cycled(self.fcb);
+                    self.rc = 0;
+                    self.state = PeripheralState::WaitForParam;
+                    Some(PeripheralEvent::Online)
+                } else {
+                    None
+                }
+            }
+            PeripheralState::WaitForParam | PeripheralState::WaitForConfig => {
+                if r == Reply::Sc {
+                    self.fcb = cycled(self.fcb);
+                    self.rc = 0;
+                    self.state = if self.state == PeripheralState::WaitForParam { PeripheralState::WaitForConfig } else { PeripheralState::ValidateConfig };
+                }
+                None
+            }
+            PeripheralState::ValidateConfig => {
+                self.rc = 0;
+                if let Reply::Diag { prm_fault, cfg_fault, prm_req, not_ready } = r {
+                    self.fcb = cycled(self.fcb);
+                    if prm_fault {
+                        self.state = PeripheralState::Offline;
+                        Some(PeripheralEvent::ParameterError)
+                    } else if cfg_fault {
+                        self.state = PeripheralState::Offline;
+                        Some(PeripheralEvent::ConfigError)
+                    } else if prm_req {
+                        self.state = PeripheralState::WaitForParam;
+                        None
+                    } else if !not_ready {
+                        self.state = PeripheralState::PreDataExchange;
+                        Some(PeripheralEvent::Configured)
+                    } else {
+                        None
+                    }
+                } else {
+                    None
+                }
+            }
+            PeripheralState::PreDataExchange | PeripheralState::DataExchange => {
+                if self.diag_requested {
+                    if diag {
+                        self.fcb = cycled(self.fcb);
+                        self.rc = 0;
+                        self.diag_needed = false;
+                        Some(PeripheralEvent::Diagnostics)
+                    } else {
+                        None
+                    }
+                } else {
+                    self.rc = 0;
+                    self.fcb = cycled(self.fcb);
+                    match r {
+                        Reply::Sc => {
+                            if self.has_inputs {
+                                None
+                            } else {
+                                self.state = PeripheralState::DataExchange;
+                                Some(PeripheralEvent::DataExchanged)
+                            }
+                        }
+                        Reply::Diag { .. } | Reply::Data { .. } => {
+                            // a diagnostics-shaped telegram in a data round is just a data telegram
+                            let (status, len_ok) = match r {
+                                Reply::Data { status, len_ok } => (status, len_ok),
+                                _ => (ResponseStatus::Ok, false),
+                            };
+                            let ok = match status {
+                                ResponseStatus::SapNotEnabled => {
+                                    self.state = PeripheralState::ValidateConfig;
+                                    false
+                                }
+                                ResponseStatus::Ok | ResponseStatus::DataLow => true,
+                                ResponseStatus::DataHigh => {
+                                    self.diag_needed = true;
+                                    true
+                                }
+                                _ => false,
+                            };
+                            if ok && len_ok {
+                                self.state = PeripheralState::DataExchange;
+                                Some(PeripheralEvent::DataExchanged)
+                            } else {
+                                None
+                            }
+                        }
+                    }
+                }
+            }
+        }
+    }
+}
+
+#[kani::proof]
+#[kani::unwind(14)]
+fn c07_refines_transmit() {
+    let mut pi_i = [0u8; 1];
+    let ilen: usize = kani::any();
+    kani::assume(ilen <= 1);
+    let mut pi_q = [0u8; 1];
+    let user: [u8; 1] = kani::any();
+    let cfg: [u8; 1] = kani::any();
+    let mut diag_store = [0u8; 1];
+    let fdl = any_fdl();
+    let dp = crate::dp::master::verif::mk_dp_state(crate::dp::master::verif::any_operating());
+    let mut p = any_peripheral(&mut pi_i[..ilen], &mut pi_q[..], &mut diag_store[..], Some(&user[..]), Some(&cfg[..]));
+    kani::assume(inv_dp(&p, &fdl));
+    let mut m = RefMaster::of(&p, &fdl);
+    let mut buf = [0u8; 20];
+    let now = crate::time::Instant::ZERO;
+    let (sent, event) = match p.transmit_telegram(now, &dp, &fdl, TelegramTx::new(&mut buf), HighPrioOnly::No) {
+        Ok(r) => (Some(r.bytes_sent()), None),
+        Err((_t, ev)) => (None, ev),
+    };
+    let (kind, offline) = m.transmit();
+    assert!(sent.is_some() == (kind != ReqKind::None) && (event == Some(PeripheralEvent::Offline)) == offline && (event.is_none() || offline), "C07/refines: the real master sends a request / raises Offline exactly when the reference master does");
+    if let Some(n) = sent {
+        let h = wire_header(&buf, n);
+        let want_dsap = match kind {
+            ReqKind::Diag => Some(60),
+            ReqKind::SetPrm => Some(61),
+            ReqKind::ChkCfg => Some(62),
+            _ => None,
+        };
+        assert!(h.dsap == want_dsap, "C07/refines: the request is of the kind the reference master sends");
+    }
+    assert!(RefMaster::of(&p, &fdl) == m, "C07/refines: after a transmit turn the real peripheral's control state equals the reference master's");
+    kani::cover!(offline, "cover: offline declared");
+    kani::cover!(kind == ReqKind::DataExchange, "cover: data exchange request");
+}
+
+#[kani::proof]
+#[kani::unwind(14)]
+fn c07_refines_receive() {
+    let mut pi_i = [0u8; 1];
+    let ilen: usize = kani::any();
+    kani::assume(ilen <= 1);
+    let mut pi_q = [0u8; 1];
+    let mut diag_store = [0u8; 2];
+    let fdl = any_fdl();
+    let dp = crate::dp::master::verif::mk_dp_state(crate::dp::master::verif::any_operating());
+    let mut p = any_peripheral(&mut pi_i[..ilen], &mut pi_q[..], &mut diag_store[..], None, None);
+    kani::assume(inv_dp(&p, &fdl));
+    let mut m = RefMaster::of(&p, &fdl);
+
+    let pdu_store: [u8; 8] = kani::any();
+    let plen: usize = kani::any();
+    kani::assume(plen <= 8);
+    let is_sc: bool = kani::any();
+    let dsap = any_sap();
+    let ssap = any_sap();
+    let rstatus = any_response_status();
+    let telegram = if is_sc {
+        Telegram::ShortConfirmation(ShortConfirmation)
+    } else {
+        Telegram::Data(DataTelegram {
+            h: DataTelegramHeader { da: fdl.parameters().address, sa: p.address, dsap, ssap, fc: FunctionCode::Response { state: any_response_state(), status: rstatus } },
+            pdu: &pdu_store[..plen],
+        })
+    };
+    let flags = u16::from(pdu_store[0]) | (u16::from(pdu_store[1]) << 8);
+    let reply = if is_sc {
+        Reply::Sc
+    } else if dsap == Some(62) && ssap == Some(60) && plen >= 6 {
+        Reply::Diag { prm_fault: flags & 0x0040 != 0, cfg_fault: flags & 0x0004 != 0, prm_req: flags & 0x0100 != 0, not_ready: flags & 0x0002 != 0 }
+    } else {
+        Reply::Data { status: rstatus, len_ok: plen == ilen }
+    };
+    // a diagnostics-shaped telegram in a data round counts as data with its own status/length
+    let reply_for_ref = match (reply, in_dx(m.state) && !m.diag_requested) {
+        (Reply::Diag { .. }, true) => Reply::Data { status: rstatus, len_ok: plen == ilen },
+        (r, _) => r,
+    };
+    let ev = p.receive_reply(crate::time::Instant::ZERO, &dp, &fdl, telegram);
+    let want_ev = m.receive(reply_for_ref);
+    assert!(ev == want_ev, "C07/refines: the real master raises the event the reference master raises");
+    assert!(RefMaster::of(&p, &fdl) == m, "C07/refines: after a reply the real peripheral's control state equals the reference master's");
+    kani::cover!(ev == Some(PeripheralEvent::Configured), "cover: configured");
+    kani::cover!(ev == Some(PeripheralEvent::DataExchanged), "cover: data exchanged");
+}
+
+// ---- reference DP slave ------------------------------------------------------------------------
+
+#[derive(Clone, Copy, PartialEq, Eq)]
+pub(crate) enum Stage {
+    WaitPrm,
+    WaitCfg,
+    DataExch,
+}
+
+#[derive(Clone, Copy, PartialEq, Eq)]
+pub(crate) struct RefSlave {
+    pub stage: Stage,
+    /// frame count bit of the last request accepted from the master (None: expecting a first request)
+    pub last_fcb: Option<bool>,
+    /// response to the last request, repeated when the request is retransmitted
+    pub stored: Reply,
+}
+
+impl RefSlave {
+    fn diag(&self) -> Reply {
+        Reply::Diag {
+            prm_fault: false,
+            cfg_fault: false,
+            prm_req: self.stage == Stage::WaitPrm,
+            not_ready: self.stage != Stage::DataExch,
+        }
+    }
+
+    /// Handle one request (DP-V0 slave state machine with FDL retry detection).
+    pub fn handle(&mut self, kind: ReqKind, fcb: FrameCountBit) -> Reply {
+        let (fcv, bit) = ref_fcv_fcb(fcb);
+        if fcv && self.last_fcb == Some(bit) {
+            // same frame count bit as the last accepted request: a retransmission, answered by
+            // repeating the stored response without executing the service again
+            return self.stored;
+        }
+        self.last_fcb = if fcv || bit { Some(bit) } else { None };
+        let sap_not_enabled = Reply::Data { status: ResponseStatus::SapNotEnabled, len_ok: false };
+        let r = match kind {
+            ReqKind::Diag => self.diag(),
+            ReqKind::SetPrm => {
+                // parameters match (the property's premise): accepted in every stage
+                self.stage = Stage::WaitCfg;
+                Reply::Sc
+            }
+            ReqKind::ChkCfg => {
+                if self.stage == Stage::WaitCfg {
+                    self.stage = Stage::DataExch;
+                    Reply::Sc
+                } else if self.stage == Stage::DataExch {
+                    Reply::Sc
+                } else {
+                    sap_not_enabled
+                }
+            }
+            ReqKind::DataExchange => {
+                if self.stage == Stage::DataExch {
+                    Reply::Data { status: ResponseStatus::DataLow, len_ok: true }
+                } else {
+                    sap_not_enabled
+                }
+            }
+            ReqKind::None => unreachable!(),
+        };
+        self.stored = r;
+        r
+    }
+
+    pub fn power_cycle(&mut self) {
+        self.stage = Stage::WaitPrm;
+        self.last_fcb = None;
+    }
+}
+
+fn any_ref_master(limit: u8) -> RefMaster {
+    let m = RefMaster {
+        state: any_pstate(),
+        rc: kani::any(),
+        fcb: any_live_fcb(),
+        diag_needed: kani::any(),
+        diag_requested: kani::any(),
+        limit,
+        has_inputs: kani::any(),
+    };
+    kani::assume(m.rc <= limit + 1 && (m.state != PeripheralState::Offline || m.rc <= 1));
+    m
+}
+
+fn any_ref_slave() -> RefSlave {
+    let stage = match kani::any::<u8>() {
+        0 => Stage::WaitPrm,
+        1 => Stage::WaitCfg,
+        _ => Stage::DataExch,
+    };
+    let stored = match kani::any::<u8>() {
+        0 => Reply::Sc,
+        1 => Reply::Diag { prm_fault: false, cfg_fault: false, prm_req: kani::any(), not_ready: kani::any() },
+        2 => Reply::Data { status: ResponseStatus::DataLow, len_ok: true },
+        _ => Reply::Data { status: ResponseStatus::SapNotEnabled, len_ok: false },
+    };
+    RefSlave { stage, last_fcb: if kani::any() { Some(kani::any()) } else { None }, stored }
+}
+
+/// Bounded history + fault-free continuation on the reference pair: from a fresh master and a
+/// slave in any stage, `K` events chosen freely among {fault-free turn, turn with a transient
+/// parameter/configuration fault report, turn whose reply signals diagnostics (high priority),
+/// request lost, reply lost, slave power cycle, user diagnostics request}, then `TURNS`
+/// fault-free turns: master in DataExchange, slave in Data_Exch, and stable.
+fn history_then_progress<const K: usize, const TURNS: usize>(limit: u8) {
+    let mut m = RefMaster { state: PeripheralState::Offline, rc: 0, fcb: FrameCountBit::First, diag_needed: false, diag_requested: false, limit, has_inputs: kani::any() };
+    let mut s = any_ref_slave();
+    s.last_fcb = None; // nothing was ever received from this master
+    let mut live = false;
+    let mut e = 0;
+    while e < K {
+        let ev: u8 = kani::any();
+        kani::assume(ev <= 7);
+        match ev {
+            6 => s.power_cycle(),
+            7 => m.diag_needed = true, // request_diagnostics()
+            _ => {
+                let (kind, offline) = m.transmit();
+                if offline {
+                    assert!(live, "C14/lifecycle: Offline is reported only for a peripheral that was live");
+                    live = false;
+                }
+                if kind != ReqKind::None && ev != 5 {
+                    // ev 5: the request is lost on the bus
+                    let mut r = s.handle(kind, m.fcb);
+                    if let Reply::Diag { prm_req, not_ready, .. } = r {
+                        // transient fault reports
+                        if ev == 1 {
+                            r = Reply::Diag { prm_fault: true, cfg_fault: false, prm_req, not_ready };
+                        } else if ev == 2 {
+                            r = Reply::Diag { prm_fault: false, cfg_fault: true, prm_req, not_ready };
+                        }
+                    }
+                    if ev == 3 && r == (Reply::Data { status: ResponseStatus::DataLow, len_ok: true }) {
+                        r = Reply::Data { status: ResponseStatus::DataHigh, len_ok: true };
+                    }
+                    if ev != 4 {
+                        // ev 4: the reply is lost on the bus
+                        let evt = m.receive(r);
+                        match evt {
+                            Some(PeripheralEvent::Online) => {
+                                assert!(!live, "C07/events: Online is reported only for a peripheral that was not live");
+                                live = true;
+                            }
+                            Some(PeripheralEvent::ParameterError) | Some(PeripheralEvent::ConfigError) => live = false,
+                            _ => {}
+                        }
+                    }
+                }
+            }
+        }
+        assert!(live == (m.state != PeripheralState::Offline), "C14/lifecycle: the events tell whether the peripheral is live");
+        e += 1;
+    }
+    kani::cover!(m.state == PeripheralState::DataExchange && m.rc == limit + 1, "cover: history ends with a running peripheral about to be declared offline");
+    kani::cover!(m.state == PeripheralState::Offline && m.fcb != FrameCountBit::First, "cover: history ends offline after a fault report");
+    // fault-free continuation
+    let mut t = 0;
+    while t < TURNS {
+        let (kind, _offline) = m.transmit();
+        if kind != ReqKind::None {
+            let r = s.handle(kind, m.fcb);
+            m.receive(r);
+        }
+        t += 1;
+    }
+    assert!(m.state == PeripheralState::DataExchange && s.stage == Stage::DataExch, "C07/progress: after any history of faults a conforming peripheral is back in cyclic data exchange within the bounded number of fault-free turns");
+    let (kind, offline) = m.transmit();
+    assert!(!offline && (kind == ReqKind::DataExchange || kind == ReqKind::Diag), "C07/progress: once in data exchange the master keeps exchanging data (or fetching requested diagnostics)");
+    let r = s.handle(kind, m.fcb);
+    m.receive(r);
+    assert!(m.state == PeripheralState::DataExchange && s.stage == Stage::DataExch, "C07/progress: data exchange is stable on a fault-free bus");
+}
+
+#[kani::proof]
+#[kani::unwind(14)]
+fn c07_history_progress_limit1_q() {
+    history_then_progress::<10, 12>(1);
+}
+
+#[kani::proof]
+#[kani::unwind(26)]
+fn c07_history_progress_limit1_t() {
+    history_then_progress::<22, 12>(1);
+}
+
+#[kani::proof]
+#[kani::unwind(28)]
+fn c07_history_progress_limit3_t() {
+    history_then_progress::<26, 14>(3);
+}
+
+/// A peripheral that stops answering is reported Offline after exactly 1+limit transmissions of
+/// the unanswered request (counting the ones already made), exactly once, and is then only probed.
+#[kani::proof]
+#[kani::unwind(40)]
+fn c07_silent_goes_offline() {
+    let limit: u8 = kani::any();
+    kani::assume(limit >= 1 && limit <= 15);
+    let mut m = any_ref_master(limit);
+    kani::assume(m.state != PeripheralState::Offline);
+    let rc0 = m.rc;
+    let mut sent = 0u8;
+    let mut offline_events = 0u8;
+    let mut t = 0;
+    while t < 36 {
+        let (kind, offline) = m.transmit();
+        if offline {
+            offline_events += 1;
+        } else if kind != ReqKind::None && offline_events == 0 {
+            sent += 1;
+        } else if kind != ReqKind::None {
+            assert!(kind == ReqKind::Diag, "C08/offline-probe: an offline peripheral is only probed with diagnostics requests");
+        }
+        t += 1;
+    }
+    assert!(offline_events == 1, "C07/offline: a peripheral that stops answering is reported Offline exactly once");
+    assert!(sent + rc0 == limit + 1, "C08/retry-limit: an unanswered request is transmitted exactly 1+max_retry_limit times before the peripheral is declared offline");
+    assert!(m.state == PeripheralState::Offline && m.fcb == FrameCountBit::First, "C08/first-after-offline: probing restarts with the initial frame count bit");
 }
